@@ -223,3 +223,83 @@ Example C04_nan_key_instances :
   is_ok (unser [] ex_pu 5 ex_env (SObject "o" false [("a", ex_prop SAny None false)])
            (VMap t_any_map false [(vstr "a", ex_nan_map)])) = true.
 Proof. vm_compute. repeat split; reflexivity. Qed.
+
+(* ====================================================================================================
+   Appended by work package pb1: the termination half for struct-mapped objects (Proofs/XMono.v, XTerm.v).
+
+   FULL STATEMENT (x_struct_total, still NOT proved in this generality):
+     xterminating K e s = true  (xwf + no inline cycle + defaults processed + NO sub-object default cycle,
+     i.e. the absence of exactly D11 / D50 / D52, recursive schemas allowed) ->
+     forall f >= xfuel_bound K e s v, xunser/xvalidate/xserialize/xcompat f e s v is neither Panic nor OutOfFuel.
+   PROVED:
+     C04_struct_fuel_monotone       more fuel never changes a finished result: every fuel-indexed statement about
+                                    the x-model is fuel-independent (all schemas, all values).
+     C04_struct_terminates_partial  the termination half on the class of NON-RECURSIVE schemas
+                                    (xterminating_nr K e s = xwf e s && xnonrec K e s): references and scopes are
+                                    allowed (the harness descriptors XNested / Choice / XPtrs / XEmbPtr are in it),
+                                    but the unfolding of the schema along the references the operations follow
+                                    closes within the node count; property names are distinct and every declared
+                                    default decodes to a value of depth <= K.  Explicit fuel bound
+                                      xfuel_bound_nr K e s v = 4 * N + max (vdepth v) (K + N) + 3,  N = xnr_fuel e s.
+                                    The class excludes D52, D11 and D50 (C04_struct_nonrec_excludes_cycles).
+     C04_struct_total_partial       both halves together on that class.
+   MISSING for the full statement: recursive schemas whose recursion consumes input (a list / map / keyed
+   one-of / multi-property object between two visits of the same object): the chain measure of Proofs/C04Term.v
+   over xschema, plus a separate boolean class bounding xsub_defaults on recursive members. *)
+From Verif Require Import Schema.Total Proofs.XMono Proofs.XTerm.
+
+Theorem C04_struct_fuel_monotone :
+  forall (words : list (string * bool)) (pu : units -> string -> option fl)
+         (f f' : nat) (e : xenv) (s : xschema) (v : gval), (f <= f')%nat ->
+  (forall r, xunser words pu f e s v = r -> r <> OutOfFuel -> xunser words pu f' e s v = r) /\
+  (forall r, xvalidate words pu f e s v = r -> r <> OutOfFuel -> xvalidate words pu f' e s v = r) /\
+  (forall r, xserialize words pu f e s v = r -> r <> OutOfFuel -> xserialize words pu f' e s v = r) /\
+  (forall r, xcompat words pu f e s v = r -> r <> OutOfFuel -> xcompat words pu f' e s v = r).
+Proof. exact x_fuel_monotone. Qed.
+Print Assumptions C04_struct_fuel_monotone.
+
+Theorem C04_struct_terminates_partial :
+  forall (words : list (string * bool)) (pu : units -> string -> option fl)
+         (K : nat) (e : xenv) (s : xschema) (v : gval),
+  xterminating_nr K e s = true ->
+  forall f, (xfuel_bound_nr K e s v <= f)%nat ->
+    xunser words pu f e s v <> OutOfFuel /\ xvalidate words pu f e s v <> OutOfFuel /\
+    xserialize words pu f e s v <> OutOfFuel /\ xcompat words pu f e s v <> OutOfFuel.
+Proof. exact x_struct_terminates_nr. Qed.
+Print Assumptions C04_struct_terminates_partial.
+
+Theorem C04_struct_total_partial :
+  forall (words : list (string * bool)) (pu : units -> string -> option fl)
+         (K : nat) (e : xenv) (s : xschema) (v : gval),
+  xterminating_nr K e s = true ->
+  forall f, (xfuel_bound_nr K e s v <= f)%nat ->
+    ((forall w, xunser words pu f e s v <> Panic w) /\ xunser words pu f e s v <> OutOfFuel) /\
+    ((forall w, xvalidate words pu f e s v <> Panic w) /\ xvalidate words pu f e s v <> OutOfFuel) /\
+    ((forall w, xserialize words pu f e s v <> Panic w) /\ xserialize words pu f e s v <> OutOfFuel) /\
+    ((forall w, xcompat words pu f e s v <> Panic w) /\ xcompat words pu f e s v <> OutOfFuel).
+Proof. exact x_struct_total_nr. Qed.
+Print Assumptions C04_struct_total_partial.
+
+(* the hypotheses are met by the harness descriptors (with the explicit fuel bound the operations finish),
+   K = 0 rejects XNested (XInner.a has the default "1", a value of depth 1) *)
+Example C04_struct_terminates_example :
+  xterminating_nr 1 (xs_env []) (xs_scope "XNested") = true /\
+  xterminating_nr 1 (xs_env []) (xs_scope "Choice") = true /\
+  xterminating_nr 1 (xs_env []) (xs_scope "XPtrs") = true /\
+  xterminating_nr 1 (xs_env []) (xs_scope "XEmbPtr") = true /\
+  xterminating_nr 0 (xs_env []) (xs_scope "XNested") = false /\
+  is_ok (xunser w_words w_pu (xfuel_bound_nr 1 (xs_env []) (xs_scope "XNested") xt_v_nested)
+           (xs_env []) (xs_scope "XNested") xt_v_nested) = true /\
+  is_err (xvalidate w_words w_pu (xfuel_bound_nr 1 (xs_env []) (xs_scope "XNested") (xs_inner_v 1 "q"))
+           (xs_env []) (xs_scope "XNested") (xs_inner_v 1 "q")) = true /\
+  is_ok (xserialize w_words w_pu
+           (xfuel_bound_nr 1 (xs_env []) (xs_scope "Choice") (VMap t_str_map false [(vstr "o", xs_inner_v 5 "z")]))
+           (xs_env []) (xs_scope "Choice") (VMap t_str_map false [(vstr "o", xs_inner_v 5 "z")])) = true.
+Proof. exact xt_descriptors_terminating. Qed.
+
+(* the class excludes the D52 witness of C04_struct_subdefault_cycle_refuted, and D11 / D50 over xschema *)
+Theorem C04_struct_nonrec_excludes_cycles : forall K,
+  xnonrec K (w_env []) w_rec = false /\ xterminating_nr K (w_env []) w_rec = false /\
+  xnonrec K (xs_env []) xt_d11 = false /\ xnonrec K (xs_env []) xt_d50 = false.
+Proof. exact xt_excludes_cycles. Qed.
+Print Assumptions C04_struct_nonrec_excludes_cycles.
